@@ -11,7 +11,7 @@ ErrChoices(l) == {<<>>} \cup {<< <<s - 1, 0>> >> : s \in {k \in 1..Len(l) : l[k]
 Cases == UNION {{[lens |-> l, strategy |-> s, seed |-> 7, files |-> f, errs |-> e] :
                      s \in {"sequential", "interleaved"}, f \in {0 - 1, 1, 2}, e \in ErrChoices(l)} : l \in Vecs(0)}
          \cup UNION {{[lens |-> l, strategy |-> "weighted", seed |-> sd, files |-> f, errs |-> e] :
-                     sd \in {1, 2}, f \in {0 - 1, 0}, e \in ErrChoices(l)} : l \in Vecs(1)}
+                     sd \in {0, 1}, f \in {0 - 1, 0}, e \in ErrChoices(l)} : l \in Vecs(1)}
 VARIABLE x
 Init == x = 0 /\ ndJsonSerialize(IOEnv.OUT, SetToSeq(Cases))
 Next == UNCHANGED x
